@@ -208,6 +208,12 @@ where
                             #[cfg(pavex_verif)]
                             super::verif_trace::record("w_drain_end", id as u64, 0);
 
+                            // Give the connections we have just kicked off a chance to run once
+                            // before asking them to shut down: a connection that has not been
+                            // polled yet is closed by `hyper` without even reading the request
+                            // that is waiting on its socket.
+                            tokio::task::yield_now().await;
+
                             // Wait for all live connections to be closed or for the timeout to expire.
                             #[cfg(pavex_verif)]
                             super::verif_trace::record("w_signal", id as u64, 0);
